@@ -1,6 +1,8 @@
 import CV.Proofs.HttpServer
 import CV.Model.HttpSpec
 import CV.Proofs.HttpWf4
+import CV.Proofs.HttpLex
+import CV.Proofs.HttpLexRound
 /-
 C13 - HTTP requests are parsed identically however the stream is segmented.
 
@@ -486,5 +488,237 @@ example : (∀ d ∈ toySegs, d ≠ []) ∧
     (∀ l n, rfcChunkSize l = some n →
       ({ rfcLex with first := fun _ _ => some ⟨1, 1, some 200⟩ } : Lex).chunk l = some n) :=
   ⟨by decide, by decide, fun _ _ h => h⟩
+
+/-! ### The lexers themselves (CV/Model/HttpLex.lean): `concreteLex`
+
+`concreteLex pathOk` instantiates the parameter `Lex` with executable models of the code's own
+leaf functions (`_parse_request_line`, `_parse_response_line`, the header-block loop of
+`_parse_headers` + `Headers`, `_parse_chunk_size`).  Only the canonical-path guard of the server
+(`pathOk`: `Request`, `urlsplit`, `quote`) stays a parameter.  Strings the lexer models refuse
+(`Lx.unsupported`: a backslash, a first line / Content-Length value over 4000 characters, a network
+location with brackets or non-ASCII, a non-ASCII header name) count as "not accepted" in
+`concreteLex`; every hypothesis below of the form "the lexer accepts ..." therefore excludes them. -/
+
+/-- `GET / HTTP/1.1` -/
+def cFl : Bytes := [71, 69, 84, 32, 47, 32, 72, 84, 84, 80, 47, 49, 46, 49]
+/-- `Host: h CRLF Content-Length: 2` -/
+def cHb : Bytes := [72, 111, 115, 116, 58, 32, 104, 13, 10, 67, 111, 110, 116, 101, 110, 116, 45, 76, 101, 110, 103, 116, 104, 58, 32, 50]
+/-- `GET / HTTP/1.1 CRLF Host: h CRLF Content-Length: 2 CRLF CRLF ab` -/
+def cMsg : Bytes := cFl ++ CRLF ++ cHb ++ CRLF2 ++ [97, 98]
+/-- cut inside the request line, between CR and LF, inside the header block, inside CRLF CRLF, inside the body -/
+def cSegs : List Bytes := [cFl.take 5, cFl.drop 5 ++ [13], [10] ++ cHb.take 9, cHb.drop 9 ++ [13, 10, 13], [10, 97], [98]]
+/-- `Host: h CRLF Transfer-Encoding: chunked` -/
+def cHbT : Bytes := [72, 111, 115, 116, 58, 32, 104, 13, 10, 84, 114, 97, 110, 115, 102, 101, 114, 45, 69, 110, 99, 111, 100, 105, 110, 103, 58, 32, 99, 104, 117, 110, 107, 101, 100]
+/-- the same request, chunked: `2;x CRLF ab CRLF 0 CRLF CRLF` -/
+def cMsgT : Bytes := cFl ++ CRLF ++ cHbT ++ CRLF2 ++ [50, 59, 120, 13, 10, 97, 98, 13, 10, 48, 13, 10, 13, 10]
+def okPath : Bytes → Option Bytes → Bool := fun _ _ => true
+
+/-- **A request line carries no status**: the hypothesis `hreq` of `wellformed_clean_partial`
+    holds of the code's request-line lexer (`_parse_request_line` never sets `_status_code`). -/
+theorem concrete_request_no_status (pathOk : Bytes → Option Bytes → Bool) (l : Bytes) (f : FirstLine)
+    (h : (concreteLex pathOk).first .request l = some f) : f.status = none :=
+  lx_request_no_status l f h
+
+example : (concreteLex okPath).first .request cFl = some ⟨1, 1, none⟩ := by decide
+
+/-- **Chunk sizes, positive part.**  For every non-empty string `ds` of HEXDIG, optionally followed by
+    blanks `w` (what `bytes.strip()` removes) and by nothing or a `;`-extension `ext`, the code's
+    chunk-size lexer (`int(line.split(b';', 1)[0].strip(), 16)`) returns the number written: the value
+    `hexNum 0 ds` of the RFC 7230 reader.  No length bound: `int(.., 16)` has no digit limit. -/
+theorem lexChunk_hex (ds w ext : Bytes) (hne : ds ≠ []) (h : ∀ b ∈ ds, (hexVal b).isSome = true)
+    (hw : ∀ b ∈ w, isASpace b = true) (he : ext = [] ∨ ext.head? = some 59) :
+    ∃ n, hexNum 0 ds = some n ∧ lexChunk (ds ++ w ++ ext) = .ok n :=
+  lx_lexChunk_hex ds w ext hne h hw he
+
+/-- `1a SP ;x` = 26 -/
+example : ([49, 97] : Bytes) ≠ [] ∧ (∀ b ∈ ([49, 97] : Bytes), (hexVal b).isSome = true) ∧
+    (∀ b ∈ ([32] : Bytes), isASpace b = true) ∧ (([59, 120] : Bytes) = [] ∨ ([59, 120] : Bytes).head? = some 59) ∧
+    lexChunk ([49, 97] ++ [32] ++ [59, 120]) = .ok 26 := by decide
+
+/-- **Chunk sizes, negative part**: the shapes RFC 7230 forbids and `int` refuses - the empty line, a
+    lone sign, a lone `0x`, an extension without a size - are InvalidChunkSize; so is every negative
+    number (the repaired defect C14-b: `-5`), while `+5` and `-0` are read as 5 and 0 (`int` accepts a sign). -/
+theorem lexChunk_refuses :
+    lexChunk [] = .invalid ∧ lexChunk [43] = .invalid ∧ lexChunk [45] = .invalid ∧
+    lexChunk [48, 120] = .invalid ∧ lexChunk [59, 120] = .invalid ∧ lexChunk [45, 53] = .invalid ∧
+    lexChunk [43, 53] = .ok 5 ∧ lexChunk [45, 48] = .ok 0 := by decide
+
+/-- **The hypothesis `hchunk` of the `wellformed_*` theorems holds of the code's lexer**: what the
+    RFC 7230 chunk-size reader accepts, `_parse_chunk_size` accepts with the same value. -/
+theorem concrete_chunk_rfc (pathOk : Bytes → Option Bytes → Bool) (l : Bytes) (n : Nat)
+    (hr : rfcChunkSize l = some n) : (concreteLex pathOk).chunk l = some n := by
+  show (lexChunk l).toOption = some n
+  rw [lx_lexChunk_rfc l n hr]; rfl
+
+example : rfcChunkSize [50, 59, 120] = some 2 := by decide
+
+/-- **Well-formed => clean, for the code's lexers: no hypothesis on the lexer left.**  Every message
+    that the RFC-derived decomposition `isReading` accepts as (first line `fl`, header block `hb`,
+    body `body`) - first line and header block accepted by the *modelled* `_parse_firstline` /
+    `_parse_headers`, framing read off the header block by the modelled `Headers` - is read by the
+    parser model, in one piece, as exactly that: complete, no parser error, no Python exception, no
+    byte beyond the message.  (`wellformed_clean_partial` with `hchunk` and `hreq` discharged.) -/
+theorem wellformed_clean_concrete (pathOk : Bytes → Option Bytes → Bool) (k : Kind) (msg fl : Bytes)
+    (hb : Option Bytes) (body : Bytes)
+    (hr : isReading (concreteLex pathOk) k msg fl hb body = true) :
+    let p := exec (concreteLex pathOk) (init k) msg
+    p.core.bad = false ∧ p.core.complete = true ∧
+    p.core.firstLine = some fl ∧ p.core.hdrBlock = hb ∧ p.core.body = body :=
+  wellformed_clean_partial (concreteLex pathOk) k msg fl hb body hr (concrete_chunk_rfc pathOk)
+    (fun _ f hf => concrete_request_no_status pathOk fl f hf)
+
+example : isReading (concreteLex okPath) .request cMsg cFl (some cHb) [97, 98] = true := by decide
+
+/-- **Segmentation invariance with the code's lexers** (corollary of `segmentation_invariant`). -/
+theorem segmentation_invariant_concrete (pathOk : Bytes → Option Bytes → Bool) (k : Kind) (segs : List Bytes)
+    (hne : ∀ d ∈ segs, d ≠ []) (hs : segs ≠ [])
+    (hclean : (exec (concreteLex pathOk) (init k) segs.flatten).core.bad = false) :
+    execAll (concreteLex pathOk) (init k) segs = exec (concreteLex pathOk) (init k) segs.flatten :=
+  segmentation_invariant (concreteLex pathOk) k segs hne hs hclean
+
+example : (∀ d ∈ cSegs, d ≠ []) ∧ cSegs ≠ [] ∧ cSegs.flatten = cMsg ∧
+    (exec (concreteLex okPath) (init .request) cSegs.flatten).core.bad = false := by decide
+
+/-- **Every RFC-well-formed request, every segmentation, the code's lexers: one request at the last
+    read** (`wellformed_one_request` without its lexer hypothesis). -/
+theorem wellformed_one_request_concrete (pathOk : Bytes → Option Bytes → Bool) (secure : Bool)
+    (segs : List Bytes) (fl : Bytes) (hb : Option Bytes) (body : Bytes) (f : FirstLine) (h : HdrInfo)
+    (hw : WellFormedRequest (concreteLex pathOk) secure segs fl hb body f h) :
+    connReadAll (concreteLex pathOk) secure {} segs =
+      (⟨none, some ⟨fl, f, hb, h⟩⟩,
+       List.replicate (segs.length - 1) .wait ++ [.request fl hb body]) :=
+  wellformed_one_request (concreteLex pathOk) secure segs fl hb body f h (concrete_chunk_rfc pathOk) hw
+
+example : WellFormedRequest (concreteLex okPath) false cSegs cFl (some cHb) [97, 98] ⟨1, 1, none⟩
+    ⟨.val 2, false, true, false⟩ :=
+  ⟨by decide, by decide, by decide, by decide, by decide, by decide⟩
+
+/-- **Every RFC-well-formed response, every segmentation, the code's lexers: one response at the
+    last read** (`wellformed_one_response` without its lexer hypothesis). -/
+theorem wellformed_one_response_concrete (pathOk : Bytes → Option Bytes → Bool) (segs : List Bytes)
+    (fl : Bytes) (hb : Option Bytes) (body : Bytes) (hne : ∀ d ∈ segs, d ≠ [])
+    (hr : isReading (concreteLex pathOk) .response segs.flatten fl hb body = true) :
+    clientAll (concreteLex pathOk) (init .response) segs =
+      (init .response, List.replicate (segs.length - 1) none ++ [some ⟨some fl, hb, body⟩]) :=
+  wellformed_one_response (concreteLex pathOk) segs fl hb body hne hr (concrete_chunk_rfc pathOk)
+
+/-- `HTTP/1.1 200 OK CRLF Content-Length: 2 CRLF CRLF ab`, cut after the status line's CR -/
+example : (∀ d ∈ ([[72, 84, 84, 80, 47, 49, 46, 49, 32, 50, 48, 48, 32, 79, 75, 13],
+      [10, 67, 111, 110, 116, 101, 110, 116, 45, 76, 101, 110, 103, 116, 104, 58, 32, 50, 13, 10, 13, 10, 97], [98]] : List Bytes), d ≠ []) ∧
+    isReading (concreteLex okPath) .response
+      ([[72, 84, 84, 80, 47, 49, 46, 49, 32, 50, 48, 48, 32, 79, 75, 13],
+        [10, 67, 111, 110, 116, 101, 110, 116, 45, 76, 101, 110, 103, 116, 104, 58, 32, 50, 13, 10, 13, 10, 97], [98]] : List Bytes).flatten
+      [72, 84, 84, 80, 47, 49, 46, 49, 32, 50, 48, 48, 32, 79, 75]
+      (some [67, 111, 110, 116, 101, 110, 116, 45, 76, 101, 110, 103, 116, 104, 58, 32, 50]) [97, 98] = true := by
+  decide
+
+/-! ### Round trips through the lexers -/
+
+/-- **Request line round trip.**  For every method of METHOD_RE's class (1-20 characters of
+    `[A-Z0-9$-_.]`), every non-empty target without whitespace whose `urlsplit` has no fragment (and
+    is not refused by the model: no `//` together with brackets / non-ASCII), every version written as
+    `HTTP/` 1*DIGIT `.` 1*DIGIT, the line `METHOD SP target SP version` - without a backslash and at
+    most 4000 characters long (`lineRefused`, the model's explicit domain limit) - is lexed by
+    `_parse_request_line` as exactly (method, target, major, minor). -/
+theorem lexFirst_request_roundtrip (m t d1 d2 : Bytes)
+    (hm : methodOk m = true) (ht : t ≠ []) (hts : ∀ b ∈ t, isUSpace b = false)
+    (hfrag : hasFragment t = false) (hurl : urlRefused t = false)
+    (h1 : d1 ≠ []) (h2 : d2 ≠ []) (hd1 : ∀ b ∈ d1, isDigit b = true) (hd2 : ∀ b ∈ d2, isDigit b = true)
+    (href : lineRefused (reqLineOf m t d1 d2) = false) :
+    lexRequestLine (reqLineOf m t d1 d2) = .ok ⟨m, t, decVal d1, decVal d2⟩ ∧
+    lexFirst .request (reqLineOf m t d1 d2) = .ok ⟨decVal d1, decVal d2, none⟩ := by
+  have h := lx_request_roundtrip m t d1 d2 hm ht hts hfrag hurl h1 h2 hd1 hd2 href
+  exact ⟨h, by simp [lexFirst, h, Lx.map]⟩
+
+/-- `PUT /a?x=1 HTTP/1.0` -/
+example : methodOk [80, 85, 84] = true ∧ ([47, 97, 63, 120, 61, 49] : Bytes) ≠ [] ∧
+    (∀ b ∈ ([47, 97, 63, 120, 61, 49] : Bytes), isUSpace b = false) ∧
+    hasFragment [47, 97, 63, 120, 61, 49] = false ∧ urlRefused [47, 97, 63, 120, 61, 49] = false ∧
+    (∀ b ∈ ([49] : Bytes), isDigit b = true) ∧ (∀ b ∈ ([48] : Bytes), isDigit b = true) ∧
+    lineRefused (reqLineOf [80, 85, 84] [47, 97, 63, 120, 61, 49] [49] [48]) = false ∧
+    reqLineOf [80, 85, 84] [47, 97, 63, 120, 61, 49] [49] [48] =
+      [80, 85, 84, 32, 47, 97, 63, 120, 61, 49, 32, 72, 84, 84, 80, 47, 49, 46, 48] := by decide
+
+/-- **Status line round trip.**  For every version written as `HTTP/` 1*DIGIT `.` 1*DIGIT, every
+    three-digit status code and every reason phrase of word characters and blanks (`[\s\w]*`) that does
+    not start with a blank, the line `version SP code SP reason` (no backslash, at most 4000 characters)
+    is lexed by `_parse_response_line` as exactly (major, minor, code, reason); the parser keeps
+    (major, minor, status code). -/
+theorem lexFirst_response_roundtrip (d1 d2 code reason : Bytes)
+    (h1 : d1 ≠ []) (h2 : d2 ≠ []) (hd1 : ∀ b ∈ d1, isDigit b = true) (hd2 : ∀ b ∈ d2, isDigit b = true)
+    (hc3 : code.length = 3) (hc : ∀ b ∈ code, isDigit b = true)
+    (hr : ∀ b ∈ reason, (isUSpace b || isWord b) = true)
+    (hrh : ∀ b, reason.head? = some b → isUSpace b = false)
+    (href : lineRefused (statusLineOf d1 d2 code reason) = false) :
+    lexStatusLine (statusLineOf d1 d2 code reason) = .ok ⟨decVal d1, decVal d2, decVal code, reason⟩ ∧
+    lexFirst .response (statusLineOf d1 d2 code reason) = .ok ⟨decVal d1, decVal d2, some (decVal code)⟩ := by
+  have h := lx_status_roundtrip d1 d2 code reason h1 h2 hd1 hd2 hc3 hc hr hrh href
+  exact ⟨h, by simp [lexFirst, h, Lx.map]⟩
+
+/-- `HTTP/1.1 404 Not Found` -/
+example : (∀ b ∈ ([49] : Bytes), isDigit b = true) ∧ ([52, 48, 52] : Bytes).length = 3 ∧
+    (∀ b ∈ ([52, 48, 52] : Bytes), isDigit b = true) ∧
+    (∀ b ∈ ([78, 111, 116, 32, 70, 111, 117, 110, 100] : Bytes), (isUSpace b || isWord b) = true) ∧
+    (∀ b, ([78, 111, 116, 32, 70, 111, 117, 110, 100] : Bytes).head? = some b → isUSpace b = false) ∧
+    lineRefused (statusLineOf [49] [49] [52, 48, 52] [78, 111, 116, 32, 70, 111, 117, 110, 100]) = false ∧
+    statusLineOf [49] [49] [52, 48, 52] [78, 111, 116, 32, 70, 111, 117, 110, 100] =
+      [72, 84, 84, 80, 47, 49, 46, 49, 32, 52, 48, 52, 32, 78, 111, 116, 32, 70, 111, 117, 110, 100] := by
+  refine ⟨by decide, by decide, by decide, by decide, ?_, by decide, by decide⟩
+  intro b hb
+  simp only [List.head?_cons, Option.some.injEq] at hb
+  subst hb; decide
+
+/-- **Header block round trip.**  For every non-empty list of fields whose names are RFC 7230 tokens
+    and whose values contain no CR / LF / backslash and neither start nor end with whitespace,
+    `_parse_headers` on the serialised block (`name: value` lines joined by CRLF) makes exactly the
+    `add_header(NAME, value)` calls of these fields, in order, names upper-cased as the code does;
+    and the framing facts it reads are those the modelled `Headers` yields for that list. -/
+theorem lexHdrs_roundtrip (fs : List Field) (hne : fs ≠ []) (hok : ∀ f ∈ fs, FieldOk f) :
+    lexFieldList (serFields fs) = .ok (fs.map normField) ∧
+    lexHdrs (serFields fs) = infoOfFields (fs.map normField) := by
+  have h := lx_hdrs_roundtrip fs hne hok
+  exact ⟨h, by simp [lexHdrs, h, Lx.bind]⟩
+
+/-- `Host: h CRLF Content-Length: 2` (= `cHb`) -/
+example : ([([72, 111, 115, 116], [104]), ([67, 111, 110, 116, 101, 110, 116, 45, 76, 101, 110, 103, 116, 104], [50])] : List Field) ≠ [] ∧
+    serFields [([72, 111, 115, 116], [104]), ([67, 111, 110, 116, 101, 110, 116, 45, 76, 101, 110, 103, 116, 104], [50])] = cHb ∧
+    lexHdrs cHb = .ok ⟨.val 2, false, true, false⟩ := by decide
+
+example : ∀ f ∈ ([([72, 111, 115, 116], [104]), ([67, 111, 110, 116, 101, 110, 116, 45, 76, 101, 110, 103, 116, 104], [50])] : List Field),
+    FieldOk f := by
+  intro f hf
+  simp only [List.mem_cons, List.not_mem_nil, or_false] at hf
+  rcases hf with rfl | rfl <;> exact ⟨⟨by decide, by decide, by decide, by decide⟩, by decide⟩
+
+/-- **Continuation lines fold as the code folds them.**  A block in which fields (names tokens, first
+    value line without leading whitespace) are followed by any number of continuation lines (starting
+    with SP / HT; no CR / LF / backslash): each field's value is its first value line followed by the
+    continuation lines *as they are* (leading blank kept), the whole stripped on the right. -/
+theorem lexHdrs_fold (cfs : List CField) (hne : cfs ≠ []) (hok : ∀ cf ∈ cfs, CFieldOk cf) :
+    lexFieldList (joinCRLF (cfs.flatMap cfieldLines)) = .ok (cfs.map foldedField) :=
+  lx_hdrs_fold cfs hne hok
+
+/-- `X-A: a CRLF SP b` is the field (`X-A`, `a b`) -/
+example : CFieldOk (([88, 45, 65], [97]), [[32, 98]]) ∧
+    joinCRLF (([(([88, 45, 65], [97]), [[32, 98]])] : List CField).flatMap cfieldLines) = [88, 45, 65, 58, 32, 97, 13, 10, 32, 98] ∧
+    foldedField (([88, 45, 65], [97]), [[32, 98]]) = ([88, 45, 65], [97, 32, 98]) :=
+  ⟨⟨⟨by decide, by decide, by decide, by decide⟩, by decide⟩, by decide, by decide⟩
+
+/-- **Framing facts the block states.**  If the `add_header` calls `gs` of a block give `Content-Length`
+    a (combined) value of at most 4000 ASCII digits, the parser's Content-Length is that number; if
+    they give no `Content-Length` and a `Transfer-Encoding` that is `chunked` in any letter case, the
+    body is chunked.  (With `lexHdrs_roundtrip`: `gs = fs.map normField`.) -/
+theorem lexHdrs_framing (gs : List Field) :
+    (∀ ds, hdrGet gs nContentLength = some ds → ds ≠ [] → (∀ b ∈ ds, isDigit b = true) → ds.length ≤ 4000 →
+      ∃ hi, infoOfFields gs = .ok hi ∧ hi.clen = .val (decVal ds)) ∧
+    (∀ v, hdrGet gs nContentLength = none → hdrGet gs nTransferEncoding = some v → v.map lowerA = sChunked →
+      ∃ hi, infoOfFields gs = .ok hi ∧ hi.clen = .absent ∧ hi.te = true) :=
+  ⟨fun ds hg hne h hlen => lx_clen_digits gs ds hg hne h hlen, fun v hc ht hv => lx_te_chunked gs v hc ht hv⟩
+
+/-- `CONTENT-LENGTH: 42` / `TRANSFER-ENCODING: Chunked` -/
+example : hdrGet [(nContentLength, [52, 50])] nContentLength = some [52, 50] ∧ decVal [52, 50] = 42 ∧
+    hdrGet [(nTransferEncoding, [67, 104, 117, 110, 107, 101, 100])] nContentLength = none ∧
+    hdrGet [(nTransferEncoding, [67, 104, 117, 110, 107, 101, 100])] nTransferEncoding = some [67, 104, 117, 110, 107, 101, 100] ∧
+    ([67, 104, 117, 110, 107, 101, 100] : Bytes).map lowerA = sChunked := by decide
 
 end CV.C13
